@@ -115,7 +115,9 @@ Definition run_log_calls (code : N) (now : Z) (st : store) (it : item) : list ca
 Definition found (now : Z) (st : store) (it : item) : bool :=
   match get now st (it_pk it) (it_cc it) with Some _ => true | None => false end.
 (* only updates are loaded (creates of a re-read event are stored as they are) *)
-Definition needs_load (it : item) : bool := it_load it && negb (it_new it).
+(* applyRecs reads the stored record of every update (Gen/Params.c05_updates_always_load), or - older code - only
+   of an update whose origin is empty (event read back from the log, it_load) *)
+Definition needs_load (it : item) : bool := (c05_updates_always_load || it_load it) && negb (it_new it).
 Definition loads_ok (now : Z) (st : store) (items : list item) : bool :=
   forallb (fun it => negb (needs_load it) || found now st it) items.
 Fixpoint load_calls (now : Z) (st : store) (items : list item) : list call :=
@@ -158,13 +160,19 @@ Record obs := mkObs { o_top : option V; o_bot : option V; o_api : option N }.
    istoragecache / its PLog cache is then legitimately out of date and only the raw bytes of the shared
    storage (o_bot) are compared and judged *)
 Record slot := mkSlot { sl_it : item; sl_stale : bool; sl_before : obs; sl_after : obs }.
-Record step := mkStep { s_kind : skind; s_corrupted : bool; s_slots : list slot; s_res : res; s_calls : list call }.
+(* s_mode: 0 an ordinary step.
+   1 / 2 (re-apply kinds): the event object handed to GetEventReapplier is NOT a stored event: its PutPlog was
+         refused with SequencesViolation (1) or failed with a storage error (2).  The only guard of
+         GetEventReapplier is the isStored mark; for which of these outcomes PutPlog sets it is extracted from
+         the source (Gen/Params.c05_refused_plog_marks_stored, c05_failed_plog_marks_stored).
+   3 (PutPlog): the harness makes the storage write fail before it has any effect. *)
+Record step := mkStep { s_kind : skind; s_mode : N; s_corrupted : bool; s_slots : list slot; s_res : res; s_calls : list call }.
 (* backend: 0 mem, 1 bbolt, 2 istoragecache over mem *)
 Record gtrace := mkTrace { t_backend : N; t_trust : N; t_steps : list step }.
 
 Definition items_of (s : step) : list item := map sl_it (s_slots s).
 
-Definition run_step (trust : N) (now : Z) (st : store) (s : step) : option (store * res * list call) :=
+Definition run_step0 (trust : N) (now : Z) (st : store) (s : step) : option (store * res * list call) :=
   match s_kind s with
   | KPlog | KWlog | KReapplyWlog =>
       match items_of s with
@@ -182,6 +190,18 @@ Definition run_step (trust : N) (now : Z) (st : store) (s : step) : option (stor
       end
   | KForeign => Some (put_batch st (rows (items_of s)), ROk, [])
   end.
+
+Definition reapplier_accepts (mode : N) : bool :=
+  if mode =? 0 then true else if mode =? 1 then c05_refused_plog_marks_stored
+  else if mode =? 2 then c05_failed_plog_marks_stored else false.
+Definition is_reapply (k : skind) : bool := match k with KReapplyRecs | KReapplyWlog => true | _ => false end.
+
+Definition run_step (trust : N) (now : Z) (st : store) (s : step) : option (store * res * list call) :=
+  if s_mode s =? 0 then run_step0 trust now st s
+  else if s_mode s =? 3 then match s_kind s with KPlog => Some (st, ROther, []) | _ => None end
+  else if is_reapply (s_kind s) then
+    (if reapplier_accepts (s_mode s) then run_step0 trust now st s else Some (st, RPanic, []))
+  else None.
 
 Definition obs_of (now : Z) (st : store) (it : item) : obs :=
   let g := get now st (it_pk it) (it_cc it) in mkObs g g (option_map stamp g).
@@ -269,18 +289,37 @@ Definition judge (trust : N) (k : skind) (slots : list slot) (r : res) : bool :=
     res_eqb r ROk && forallb (fun sl => obs_ok (sl_stale sl) (sl_after sl) (written (sl_it sl))) slots
   else true.
 
-Definition satisfies_step (trust : N) (s : step) : bool :=
+Definition satisfies_step0 (trust : N) (s : step) : bool :=
   match s_kind s with
   | KRawDel | KForeign => true
   | k => if in_domain trust s then judge trust k (s_slots s) (s_res s) else true
   end.
 
+(* an event that is not in the PLog is not a recovery re-apply: whatever GetEventReapplier and the re-applier
+   answer for it, the occupied slots its writes would be guarded at as ordinary writes must stay intact *)
+Definition guarded_unstored (trust : N) (k : skind) (is_new : bool) : bool :=
+  match k with
+  | KReapplyWlog => trust <? 2
+  | KReapplyRecs => (trust =? 0) && is_new
+  | _ => false
+  end.
+
+Definition satisfies_step (trust : N) (s : step) : bool :=
+  if s_mode s =? 0 then satisfies_step0 trust s
+  else if s_mode s =? 3 then true
+  else forallb (fun sl => negb (guarded_unstored trust (s_kind s) (it_new (sl_it sl)) && occupied (sl_before sl))
+                          || obs_ok (sl_stale sl) (sl_after sl) (sl_before sl)) (s_slots s).
+
 Definition gsatisfies (t : gtrace) : bool := forallb (satisfies_step (t_trust t)) (t_steps t).
 
 (* no update row of the trace inherits a set isNew flag (what the link theorem needs while
    c05_update_inherits_isnew holds; see Properties/C05.v) *)
-Definition clean_step (s : step) : bool := forallb (fun sl => negb (stale_new (sl_it sl))) (s_slots s).
+Definition clean_step (s : step) : bool :=
+  forallb (fun sl => negb (stale_new (sl_it sl))) (s_slots s)
+  && ((s_mode s =? 0) || (s_mode s =? 3) || negb (reapplier_accepts (s_mode s))).
 Definition gclean (t : gtrace) : bool := forallb clean_step (t_steps t).
+(* no step re-applies an event whose PutPlog failed with a storage error (finding P-D) *)
+Definition no_failed_reapply (t : gtrace) : bool := forallb (fun s => negb (s_mode s =? 2)) (t_steps t).
 
 End Model.
 
